@@ -6,13 +6,14 @@ else keeps working because the replacement is a subclass.
 """
 import datetime as _dt
 
-EPOCH = _dt.datetime(2024, 1, 1, 0, 0, 0)
+_REAL = _dt.datetime                 # the genuine class, whatever the module attribute becomes later
+EPOCH = _REAL(2024, 1, 1, 0, 0, 0)
 
 _source = [None]     # callable returning virtual seconds, or None -> 0.0
 _reads = [0]
 
 
-class VirtualDateTime(_dt.datetime):
+class VirtualDateTime(_REAL):
     @classmethod
     def now(cls, tz=None):
         _reads[0] += 1
@@ -27,15 +28,15 @@ class VirtualDateTime(_dt.datetime):
 
     @classmethod
     def strptime(cls, date_string, fmt):
-        return _dt.datetime.strptime(date_string, fmt)
+        return _REAL.strptime(date_string, fmt)
 
     @classmethod
     def fromisoformat(cls, s):
-        return _dt.datetime.fromisoformat(s)
+        return _REAL.fromisoformat(s)
 
     @classmethod
     def fromtimestamp(cls, *a, **kw):
-        return _dt.datetime.fromtimestamp(*a, **kw)
+        return _REAL.fromtimestamp(*a, **kw)
 
 
 def set_source(fn):
@@ -47,3 +48,6 @@ def install():
     import nmea2000.decoder as dec
     if getattr(dec, "datetime", None) is not VirtualDateTime:
         dec.datetime = VirtualDateTime
+    # also cover `import datetime; datetime.datetime.now()` spellings inside the library
+    if _dt.datetime is not VirtualDateTime:
+        _dt.datetime = VirtualDateTime
